@@ -427,6 +427,8 @@ def c18_decorate(cases, rnd):
         c["overlap"] = "generate-first" if x < 0.2 else ("stream-first" if x < 0.4 else "")
         # wide assistant messages (>= 5 tool calls): streaming tools whose result streams close in a prescribed order; half of the
         # orders start with the 5th stream, the rest are random permutations
+        # a third run: the caller closes the streamed answer after one chunk (more often when the script ends with a text answer)
+        c["early"] = rnd.random() < (0.8 if any(not m["calls"] for m in c["script"]) else 0.15)
         c["order"] = {}
         for j, m in enumerate(c["script"]):
             w = len(m["calls"])
@@ -484,7 +486,7 @@ def c18(tier, repo=None, only_cases=None):
         mc("m3-core", r_consts(MaxMsgs=3, Modifiers=[False], Inplace=[False], **small))
         mc("m2-wide", r_consts(MaxCalls=1, MaxSteps=[0, 4], Modifiers=[False], Inplace=[False], Wide=[5, 6], **small))
         mc("m2-liveness", r_consts(MaxSteps=[0, 3], RdMode="none", Modifiers=[False], Inplace=[False], **small), props=["Terminates"], spec=True)
-        for bug in ("noappend", "norecord", "nomax", "rdlast", "modleak", "nocopy"):
+        for bug in ("noappend", "norecord", "nomax", "rdlast", "modleak", "nocopy", "noclose"):
             mc("m2-bug-" + bug, r_consts(Bug=bug, **small), expect_violation="RuleOK")
         # the documented limitation (AgentConfig.StreamToolCallChecker): default first-chunk checker + content before tool calls
         mc("m2-documented-limit", r_consts(Styles=["d-contentfirst"], Contents=[True], MaxSteps=[0], RdMode="none", Modifiers=[False], Inplace=[False]),
